@@ -36,6 +36,7 @@ import (
 	"sync"
 	"sync/atomic"
 	"time"
+	"unicode/utf8"
 
 	sqle "github.com/dolthub/go-mysql-server"
 	"github.com/dolthub/go-mysql-server/memory"
@@ -57,6 +58,15 @@ type stmt struct {
 	Var     string
 	K       int64
 	Db      string
+	// pq (physical-store query of the idx stream, idx.go): table number, query kind, bounds
+	// (nil = open), direction, LIMIT (-1 = none); Canon = result order is not determined by the
+	// statement (rows are compared sorted by their first cell)
+	Tbl    int
+	Q      string
+	Lo, Hi *int64
+	Desc   bool
+	Lim    int
+	Canon  bool
 	// sequential reference, filled by seqRun
 	Obs  string // canonical observation when the session runs alone
 	Sel  bool   // session Com_select grew
@@ -82,6 +92,8 @@ func (s *stmt) sexp() string {
 		return hx.List(s.Kind, hx.HexS(s.Var))
 	case "usedb":
 		return hx.List(s.Kind, hx.HexS(s.Db))
+	case "pq":
+		return hx.List("pq", strconv.Itoa(s.Tbl), s.Q, optInt(s.Lo), optInt(s.Hi), b(s.Desc), strconv.Itoa(s.Lim), b(s.Sel), strconv.Itoa(s.Warn), hx.HexS(s.SQL))
 	}
 	return hx.List(s.Kind)
 }
@@ -96,16 +108,22 @@ func digest(s string, rows int) string {
 // The real engine
 
 type world struct {
-	e   *eng.Eng
-	pl  sql.ProcessList
-	pid atomic.Uint64
+	e     *eng.Eng
+	pl    sql.ProcessList
+	pid   atomic.Uint64
+	snaps snapBook // process-list snapshots taken while statements run (snap.go)
 }
 
-func newWorld(db *sqlgen.Db) *world {
+// newWorld builds a fresh engine over the generated database; idb (may be nil) adds the tables of
+// the idx stream (primary key + secondary index, idx.go).
+func newWorld(db *sqlgen.Db, idb *idxDb) *world {
 	e := eng.New("d", "d2")
 	ctx := e.Ctx()
 	e.MustExec(ctx, db.Setup()...)
 	e.MustExec(ctx, "CREATE TABLE d2.u0 (a int primary key, b varchar(8))", "INSERT INTO d2.u0 VALUES (1,'x'),(2,'y'),(3,NULL)")
+	if idb != nil {
+		e.MustExec(ctx, idb.setup()...)
+	}
 	return &world{e: e, pl: e.E.ProcessList}
 }
 
@@ -131,6 +149,7 @@ type execRes struct {
 	ticks  [5]int64 // before BeginQuery, after BeginQuery, after Engine.Query, after the rows, after EndQuery
 	first  string   // text of the first cell ("" if none)
 	isNull bool
+	cells  [][]string // pq statements: the plain cell texts ("N" = NULL), in the order received
 }
 
 // exec runs one statement on sess the way server/handler.go does: BeginQuery, Engine.Query, drain,
@@ -161,6 +180,19 @@ func (w *world) exec(sess sql.Session, st *stmt, tick func() int64, pause func()
 		sch, it, _, qerr = w.e.E.Query(ctx, st.SQL)
 	})
 	res.ticks[2] = tick()
+	// process-list snapshots (snap.go): taken when the statement is analysed and its tables are
+	// registered but no partition is in flight yet, after the first row (a partition is in flight)
+	// and after the last one; every snapshot is re-read later and must not have changed
+	var recs []*snapRec
+	snap := func(when string) {
+		for _, rc := range recs {
+			w.snaps.recheck(rc, when+" of "+st.SQL)
+		}
+		if len(recs) < 3 {
+			recs = append(recs, w.snaps.take(w.pl, when+" of "+st.SQL))
+		}
+	}
+	snap("after Engine.Query returned")
 	pause()
 	if crash == "" && qerr == nil {
 		crash = hx.Safe(func() {
@@ -172,6 +204,21 @@ func (w *world) exec(sess sql.Session, st *stmt, tick func() int64, pause func()
 				if err != nil {
 					qerr = err
 					break
+				}
+				if len(rows) == 0 {
+					snap("after the first row")
+				}
+				if st.Kind == "pq" {
+					plain := make([]string, len(row))
+					for i, v := range row {
+						plain[i] = "N"
+						if i < len(sch) {
+							if txt, null := eng.Text(ctx, sch[i].Type, v); !null {
+								plain[i] = txt
+							}
+						}
+					}
+					res.cells = append(res.cells, plain)
 				}
 				cells := make([]string, len(row))
 				for i, v := range row {
@@ -199,9 +246,11 @@ func (w *world) exec(sess sql.Session, st *stmt, tick func() int64, pause func()
 		})
 	}
 	res.ticks[3] = tick()
+	snap("after the last row")
 	pause()
 	w.pl.EndQuery(ctx)
 	res.ticks[4] = tick()
+	snap("after EndQuery")
 	switch {
 	case crash != "":
 		res.class = "crash"
@@ -236,9 +285,11 @@ func observation(st *stmt, r execRes) string {
 			}
 			return digest(r.obs, 0)
 		}
-		return r.obs // a concrete statement must not fail: shows up as a disagreement
+		return strings.ReplaceAll(r.obs, " ", "_") // a concrete statement must not fail: shows up as a disagreement
 	}
 	switch st.Kind {
+	case "pq":
+		return renderCells(st, r.cells)
 	case "read":
 		return digest(r.obs, r.rows)
 	case "vol":
@@ -331,9 +382,10 @@ var volatileReads = []string{
 }
 
 type genCtx struct {
-	r  *hx.Rand
-	g  *sqlgen.Gen
-	db *sqlgen.Db
+	r   *hx.Rand
+	g   *sqlgen.Gen
+	db  *sqlgen.Db
+	idb *idxDb // idx stream: tables with primary key + secondary index (idx.go)
 }
 
 func (c *genCtx) tableQuery() *stmt {
@@ -351,6 +403,9 @@ func (c *genCtx) tableQuery() *stmt {
 func (c *genCtx) stmt() *stmt {
 	r := c.r
 	vars := []string{"a", "b", "v"}
+	if c.idb != nil && r.Chance(13, 20) {
+		return c.pqStmt()
+	}
 	switch n := r.Intn(100); {
 	case n < 48:
 		return c.tableQuery()
@@ -390,17 +445,56 @@ func (c *genCtx) stmt() *stmt {
 // Phases
 
 // seqRun runs every program alone (one fresh session after the other) and returns the
-// observations; the engine's registries are checked at the end.
-func seqRun(w *world, progs [][]*stmt, base uint32) [][]execRes {
-	out := make([][]execRes, len(progs))
+// observations. The physical storage is dumped around every statement: a statement after which it
+// differs is reported (phase names the run).
+func seqRun(w *world, progs [][]*stmt, base uint32, phase string) (out [][]execRes, physFails []string) {
+	out = make([][]execRes, len(progs))
+	prev := w.phys()
 	for s, prog := range progs {
 		sess := w.newSession(base + uint32(s))
-		for _, st := range prog {
+		for j, st := range prog {
 			out[s] = append(out[s], w.exec(sess, st, nil, nil))
+			if cur := w.phys(); !samePhys(prev, cur) {
+				physFails = append(physFails, fmt.Sprintf("%s: session program %d statement %d %q changed the stored partitions / index storage: %s", phase, s, j, st.SQL, physDiff(prev, cur)))
+				prev = cur
+			}
 		}
 		w.pl.RemoveConnection(base + uint32(s))
 	}
-	return out
+	return out, physFails
+}
+
+// interleavedRun runs the programs on K sessions of one engine in a random statement-level
+// interleaving, on one goroutine.
+func interleavedRun(w *world, progs [][]*stmt, r *hx.Rand, base uint32) (out [][]execRes, physFails []string) {
+	out = make([][]execRes, len(progs))
+	sessions := make([]sql.Session, len(progs))
+	var live []int
+	for s := range progs {
+		sessions[s] = w.newSession(base + uint32(s))
+		if len(progs[s]) > 0 {
+			live = append(live, s)
+		}
+	}
+	prev := w.phys()
+	for len(live) > 0 {
+		k := r.Intn(len(live))
+		s := live[k]
+		j := len(out[s])
+		st := progs[s][j]
+		out[s] = append(out[s], w.exec(sessions[s], st, nil, nil))
+		if cur := w.phys(); !samePhys(prev, cur) {
+			physFails = append(physFails, fmt.Sprintf("interleaved sequential schedule: session %d statement %d %q changed the stored partitions / index storage: %s", s, j, st.SQL, physDiff(prev, cur)))
+			prev = cur
+		}
+		if len(out[s]) == len(progs[s]) {
+			live = append(live[:k], live[k+1:]...)
+		}
+	}
+	for s := range progs {
+		w.pl.RemoveConnection(base + uint32(s))
+	}
+	return out, physFails
 }
 
 type sample struct {
@@ -468,10 +562,18 @@ func concRun(w *world, progs [][]*stmt, r *hx.Rand, base uint32) *concResult {
 			var sm sample
 			sm.ta = tick()
 			sm.running = counter("Threads_running") - run0
-			sm.procs = w.pl.Processes()
+			if len(cr.samples) < 4000 {
+				sm.procs = w.snaps.take(w.pl, "by the monitor while the sessions ran").procs
+			} else {
+				sm.procs = w.pl.Processes()
+			}
 			sm.tb = tick()
 			if len(cr.samples) < 4000 {
 				cr.samples = append(cr.samples, sm)
+			}
+			// older snapshots (the monitor's and the sessions') are re-read while the sessions move on
+			for _, rc := range w.snaps.recent(6) {
+				w.snaps.recheck(rc, "by the monitor a little later")
 			}
 			time.Sleep(50 * time.Microsecond)
 		}
@@ -627,7 +729,29 @@ func run(a hx.RunArgs) (err error) {
 		})
 	}
 	for _, fixed := range [][][]*stmt{wit, mix} {
-		if err := batch(a, out, rl, r.Fork(), g, K, M, fixed); err != nil {
+		if err := batch(a, out, rl, r.Fork(), g, K, M, fixed, nil); err != nil {
+			return err
+		}
+	}
+	// the idx stream (idx.go) has its own random stream and generator, so that the batches below are
+	// the sample they were before it existed: first a fixed batch (reverse primary-key scans,
+	// ascending ones and secondary-index lookups spread over four sessions), then random ones
+	ri := hx.NewRand(a.Seed*1000003 + 0xc36).Fork()
+	gi := sqlgen.NewGen(ri.Fork(), cfg)
+	fdb, fprogs := idxCorpus()
+	if err := batch(a, out, rl, ri.Fork(), gi, K, M, fprogs, fdb); err != nil {
+		return err
+	}
+	nIdx := 5
+	if a.Thorough {
+		nIdx = 60
+	}
+	for b := 0; b < nIdx; b++ {
+		k, m := K, M
+		if b%4 == 3 {
+			k, m = 2*K, M/2
+		}
+		if err := batch(a, out, rl, ri.Fork(), gi, k, m, nil, genIdxDb(ri, a.Thorough)); err != nil {
 			return err
 		}
 	}
@@ -636,9 +760,12 @@ func run(a hx.RunArgs) (err error) {
 		if b%5 == 4 {
 			k, m = 2*K, M/2
 		}
-		if err := batch(a, out, rl, r.Fork(), g, k, m, nil); err != nil {
+		if err := batch(a, out, rl, r.Fork(), g, k, m, nil, nil); err != nil {
 			return err
 		}
+	}
+	for key, v := range gi.Stats {
+		out.StatN("gen-idx:"+key, v)
 	}
 	for key, v := range g.Stats {
 		out.StatN("gen:"+key, v)
@@ -646,9 +773,10 @@ func run(a hx.RunArgs) (err error) {
 	return nil
 }
 
-func batch(a hx.RunArgs, out *sink, rl *raceLog, r *hx.Rand, g *sqlgen.Gen, K, M int, fixed [][]*stmt) error {
+func batch(a hx.RunArgs, out *sink, rl *raceLog, r *hx.Rand, g *sqlgen.Gen, K, M int, fixed [][]*stmt, idb *idxDb) error {
 	db := g.GenDb()
-	gc := &genCtx{r: r, g: g, db: db}
+	ws := worldSpec{db: db, idb: idb}
+	gc := &genCtx{r: r, g: g, db: db, idb: idb}
 	progs := make([][]*stmt, K)
 	for s := range progs {
 		n := r.Range(M/2, M)
@@ -659,22 +787,42 @@ func batch(a hx.RunArgs, out *sink, rl *raceLog, r *hx.Rand, g *sqlgen.Gen, K, M
 	if fixed != nil {
 		progs, K = fixed, len(fixed)
 	}
+	col := &collector{}
+	// 0. idx stream: every pq statement alone on a pristine engine (the reference of these statements)
+	if idb != nil {
+		pqReference(ws, progs, col)
+	}
 	// 1. alone (twice). A table query that is not reproducible alone is not a usable reference and is
 	// replaced; a session-state statement whose result differs between the two runs means that session
-	// state leaks from one session (or engine) into the next: reported below, never replaced.
-	var leaks []string
-	w1 := newWorld(db)
+	// state leaks from one session (or engine) into the next: reported below, never replaced. A pq
+	// statement has its reference from step 0 and is never replaced: a different result here means
+	// that the programs that ran before it on this engine changed what it reads.
+	var leaks, seqFails []string
+	w1 := ws.build()
 	for attempt := 0; ; attempt++ {
 		if attempt > 20 {
 			bug("sequential runs keep disagreeing")
 		}
-		r1 := seqRun(w1, progs, 100)
-		r2 := seqRun(newWorld(db), progs, 100)
+		leaks, seqFails = nil, nil
+		r1, pf1 := seqRun(w1, progs, 100, "sequential run, programs one after the other")
+		w2 := ws.build()
+		r2, pf2 := seqRun(w2, progs, 100, "sequential run on a second fresh engine")
+		col.closeWorld(w2)
+		seqFails = append(append(seqFails, pf1...), pf2...)
 		stable := true
-		leaks = nil
 		for s := range progs {
 			for j, st := range progs[s] {
 				o1, o2 := observation(st, r1[s][j]), observation(st, r2[s][j])
+				if st.Kind == "pq" {
+					for k, o := range []string{o1, o2} {
+						rr := [][][]execRes{r1, r2}[k][s][j]
+						if o != st.Obs || rr.sel != st.Sel || rr.warn != st.Warn {
+							seqFails = append(seqFails, fmt.Sprintf("session program %d statement %d %q: alone on a fresh engine %s, after the programs before it (sequential run %d) %s",
+								s, j, st.SQL, trunc(st.Obs, 200), k+1, trunc(o, 200)))
+						}
+					}
+					continue
+				}
 				st.Obs, st.Sel, st.Warn = o1, r1[s][j].sel, r1[s][j].warn
 				differs := o1 != o2 || r1[s][j].sel != r2[s][j].sel || r1[s][j].warn != r2[s][j].warn
 				switch {
@@ -696,17 +844,38 @@ func batch(a hx.RunArgs, out *sink, rl *raceLog, r *hx.Rand, g *sqlgen.Gen, K, M
 			break
 		}
 	}
+	col.closeWorld(w1)
+	// 1b. idx stream: a sequential schedule that interleaves the sessions statement by statement
+	// (one goroutine, so no concurrency at all): every statement still returns what it returns alone
+	// and leaves the storage as it found it
+	if idb != nil {
+		w3 := ws.build()
+		ri, pf := interleavedRun(w3, progs, r.Fork(), 100)
+		seqFails = append(seqFails, pf...)
+		for s := range progs {
+			for j, st := range progs[s] {
+				if st.Kind == "vol" {
+					continue
+				}
+				if o := observation(st, ri[s][j]); o != st.Obs {
+					seqFails = append(seqFails, fmt.Sprintf("interleaved sequential schedule: session %d statement %d %q gives %s, alone %s", s, j, st.SQL, trunc(o, 200), trunc(st.Obs, 200)))
+				}
+			}
+		}
+		col.closeWorld(w3)
+	}
 	// 2. concurrently, on a fresh engine over the same data
-	w := newWorld(db)
+	w := ws.build()
 	before := w.dump(db)
-	out.Pending(pendingPayload(K, progs))
+	physBefore := w.phys()
+	store := ""
+	if idb != nil {
+		store = w.storeSexp(idb)
+	}
+	out.Pending(casePayload(K, store, progs, nil))
 	cr := concRun(w, progs, r.Fork(), 100)
 
 	// payload
-	var ps []string
-	for s := range progs {
-		ps = append(ps, hx.ListOf(progs[s], func(st *stmt) string { return st.sexp() }))
-	}
 	type ev struct {
 		t int64
 		s int
@@ -730,7 +899,7 @@ func batch(a hx.RunArgs, out *sink, rl *raceLog, r *hx.Rand, g *sqlgen.Gen, K, M
 			switches++
 		}
 	}
-	payload := fmt.Sprintf("(batch %d (progs %s) (sched %s))", K, strings.Join(ps, " "), strings.Join(sched, " "))
+	payload := casePayload(K, store, progs, sched)
 	out.Pending("")
 
 	// observation of the real code
@@ -744,13 +913,20 @@ func batch(a hx.RunArgs, out *sink, rl *raceLog, r *hx.Rand, g *sqlgen.Gen, K, M
 			var os_ []string
 			for j, st := range progs[s] {
 				os_ = append(os_, observation(st, cr.res[s][j]))
-				if st.Kind == "read" && cr.res[s][j].rows > 0 {
+				if (st.Kind == "read" || st.Kind == "pq") && cr.res[s][j].rows > 0 {
 					rowsSeen = true
 				}
-				if st.Kind != "read" && st.Kind != "vol" {
+				if st.Kind != "read" && st.Kind != "vol" && st.Kind != "pq" {
 					stateSeen = true
 				}
 				out.Stat("stmt:" + st.Kind)
+				if st.Kind == "pq" {
+					q := st.Q
+					if st.Desc {
+						q += "-desc"
+					}
+					out.Stat("pq:" + q)
+				}
 				out.Stat("class:" + cr.res[s][j].class)
 			}
 			ss = append(ss, fmt.Sprintf("(%s q=%d cs=%d)", strings.Join(os_, " "), cr.sessQ[s], cr.sessCS[s]))
@@ -762,6 +938,9 @@ func batch(a hx.RunArgs, out *sink, rl *raceLog, r *hx.Rand, g *sqlgen.Gen, K, M
 	}
 	id := out.Case(payload, obs, switches >= 4*K && rowsSeen && stateSeen)
 	out.Stat("batches")
+	if idb != nil {
+		out.Stat("batches:idx")
+	}
 	out.StatN("schedule:events", len(evs))
 	out.StatN("schedule:switches", switches)
 	out.StatN("monitor:samples", len(cr.samples))
@@ -772,8 +951,16 @@ func batch(a hx.RunArgs, out *sink, rl *raceLog, r *hx.Rand, g *sqlgen.Gen, K, M
 	}
 
 	// model-free oracle ---------------------------------------------------------------------
+	// (0) what statements run ALONE on a pristine engine did (idx stream), then the sequential phases
+	nAlone := len(col.fails)
+	for _, l := range col.fails {
+		out.OracleFail(id, "-", l)
+	}
 	for _, l := range leaks {
 		out.OracleFail(id, "-", "session state is not private: "+l)
+	}
+	for _, l := range seqFails {
+		out.OracleFail(id, "-", "read-only statements interfere already in a sequential schedule: "+l)
 	}
 	// (a) every statement returns what it returned when its session ran alone
 	for s := range progs {
@@ -787,7 +974,7 @@ func batch(a hx.RunArgs, out *sink, rl *raceLog, r *hx.Rand, g *sqlgen.Gen, K, M
 			}
 			if o := observation(st, e); o != st.Obs || e.sel != st.Sel || e.warn != st.Warn {
 				out.OracleFail(id, "-", fmt.Sprintf("session %d statement %d %q: alone %s sel=%v warn=%d, concurrently %s sel=%v warn=%d (%s)",
-					s, j, st.SQL, st.Obs, st.Sel, st.Warn, o, e.sel, e.warn, trunc(e.obs, 200)))
+					s, j, st.SQL, trunc(st.Obs, 200), st.Sel, st.Warn, trunc(o, 200), e.sel, e.warn, trunc(e.obs, 200)))
 			}
 		}
 	}
@@ -860,22 +1047,42 @@ func batch(a hx.RunArgs, out *sink, rl *raceLog, r *hx.Rand, g *sqlgen.Gen, K, M
 				sm.ta, sm.tb, sm.running, nq, len(sm.procs), lo, hi, K))
 		}
 	}
-	// (d) the store is unchanged and the engine still answers like a fresh one
+	// (d) the store is unchanged — logically (table contents, catalog) and physically (stored
+	// partitions, index storage, bit for bit) — and the engine still answers like a fresh one
 	if after := w.dump(db); after != before {
 		out.OracleFail(id, "-", "table contents / catalog differ after the read-only batch")
 	}
-	r3 := seqRun(w, progs, 300)
+	physAfter := w.phys()
+	if !samePhys(physBefore, physAfter) {
+		out.OracleFail(id, "-", "the stored partitions / index storage differ after the concurrent read-only phase: "+physDiff(physBefore, physAfter))
+	}
+	r3, pf3 := seqRun(w, progs, 300, "sequential run on the engine that served the concurrent phase")
+	for _, l := range pf3 {
+		out.OracleFail(id, "-", "read-only statements interfere already in a sequential schedule: "+l)
+	}
 	for s := range progs {
 		for j, st := range progs[s] {
 			if st.Kind == "vol" {
 				continue
 			}
 			if o := observation(st, r3[s][j]); o != st.Obs {
-				out.OracleFail(id, "-", fmt.Sprintf("after the concurrent phase, session program %d statement %d %q run alone gives %s, on a fresh engine %s", s, j, st.SQL, o, st.Obs))
+				out.OracleFail(id, "-", fmt.Sprintf("after the concurrent phase, session program %d statement %d %q run alone gives %s, on a fresh engine %s", s, j, st.SQL, trunc(o, 200), trunc(st.Obs, 200)))
 			}
 		}
 	}
-	// (e) data races reported while this batch ran
+	// (e) process-list snapshots taken in any phase of this batch stayed what they were
+	col.closeWorld(w)
+	for _, l := range col.fails[nAlone:] {
+		out.OracleFail(id, "-", l)
+	}
+	out.StatN("pq:alone-on-pristine-engine", col.refs)
+	out.StatN("snapshots:taken", col.taken)
+	out.StatN("snapshots:re-read", col.rechecks)
+	out.StatN("snapshots:changed", col.changed)
+	for k, v := range col.shapes {
+		out.StatN("snapshot-shape:"+k, v)
+	}
+	// (f) data races reported while this batch ran
 	if txt := rl.fresh(); txt != "" {
 		for _, sum := range raceSummaries(txt) {
 			out.Stat("race-report")
@@ -884,6 +1091,52 @@ func batch(a hx.RunArgs, out *sink, rl *raceLog, r *hx.Rand, g *sqlgen.Gen, K, M
 		os.WriteFile(fmt.Sprintf("%s/race-batch-%s.txt", a.OutDir, id), []byte(txt), 0o644)
 	}
 	return nil
+}
+
+// collector gathers what the worlds of one batch found before the case has an id.
+type collector struct {
+	fails    []string
+	refs     int // pq statements run alone on a pristine engine
+	changed  int // process-list snapshots that changed after they were taken
+	taken    int
+	rechecks int
+	shapes   map[string]int
+}
+
+// closeWorld re-reads every process-list snapshot taken on w and collects the failures.
+func (c *collector) closeWorld(w *world) {
+	w.snaps.recheckAll("at quiescence")
+	fails, taken, rechecks, changed, shapes := w.snaps.drain()
+	c.fails = append(c.fails, fails...)
+	c.taken += taken
+	c.rechecks += rechecks
+	c.changed += changed
+	if c.shapes == nil {
+		c.shapes = map[string]int{}
+	}
+	for k, v := range shapes {
+		c.shapes[k] += v
+	}
+}
+
+type worldSpec struct {
+	db  *sqlgen.Db
+	idb *idxDb
+}
+
+func (s worldSpec) build() *world { return newWorld(s.db, s.idb) }
+
+// casePayload: (batch K (progs …) (sched …)), or (ibatch K (store …) (progs …) (sched …)) for a
+// batch of the idx stream (the physical storage the concurrent phase started from).
+func casePayload(K int, store string, progs [][]*stmt, sched []string) string {
+	var ps []string
+	for s := range progs {
+		ps = append(ps, hx.ListOf(progs[s], func(st *stmt) string { return st.sexp() }))
+	}
+	if store != "" {
+		return fmt.Sprintf("(ibatch %d %s (progs %s) (sched%s))", K, store, strings.Join(ps, " "), sp(sched))
+	}
+	return fmt.Sprintf("(batch %d (progs %s) (sched%s))", K, strings.Join(ps, " "), sp(sched))
 }
 
 // resolvesInfoSchema: the statement makes the planbuilder resolve an information_schema table
@@ -924,6 +1177,9 @@ func raceRegion(summary string, progs [][]*stmt) string {
 
 func trunc(s string, n int) string {
 	if len(s) > n {
+		for n > 0 && !utf8.RuneStart(s[n]) {
+			n--
+		}
 		return s[:n] + "…"
 	}
 	return s
@@ -981,14 +1237,6 @@ func (s *sink) StatN(key string, n int) { s.put(event{T: "stat", Key: key, N: n}
 func (s *sink) Pending(payload string)  { s.put(event{T: "pending", Payload: payload}); s.f.Sync() }
 func (s *sink) Close()                  { s.f.Sync(); s.f.Close() }
 
-func pendingPayload(K int, progs [][]*stmt) string {
-	var ps []string
-	for s := range progs {
-		ps = append(ps, hx.ListOf(progs[s], func(st *stmt) string { return st.sexp() }))
-	}
-	return fmt.Sprintf("(batch %d (progs %s) (sched))", K, strings.Join(ps, " "))
-}
-
 func parent(a hx.RunArgs) error {
 	os.MkdirAll(a.OutDir, 0o755)
 	cmd := exec.Command(os.Args[0], os.Args[1:]...)
@@ -1002,6 +1250,11 @@ func parent(a hx.RunArgs) error {
 	out.Rule = "one case = one batch: a generated database (sqlgen), K sessions x M statements (table queries, catalog reads, failing statements, " +
 		"user-variable / current-database / session-status / warning statements, volatile registry reads), run alone and then concurrently " +
 		"(K goroutines, handler-style BeginQuery/EndQuery bracket, random yields, a monitor sampling the registries) under the race detector; " +
+		"batches of the idx stream add tables with a primary key and a secondary index and statements over them (reverse / forward primary-key " +
+		"index scans, secondary-index point / range lookups and ordered scans, full scans, aggregates) whose result the Lean model computes from " +
+		"the physical storage dump in the payload, each first run alone on a pristine engine, then in sequential schedules (programs one after the " +
+		"other, statement-level interleaving) and concurrently, with the stored partitions / index storage dumped around every statement of the " +
+		"sequential phases and around the concurrent phase; process-list snapshots are taken in every registry shape and re-read later; " +
 		"a batch is non-trivial when the observed schedule switches sessions at least 4*K times, at least one table query returned rows and at least one session-state statement ran"
 	f, err := os.Open(a.OutDir + "/events.jsonl")
 	if err != nil {
